@@ -36,6 +36,10 @@ class _Settings(secsgem.hsms.HsmsSettings):
         return self._c
 
 
+class TimerBusy(Exception):
+    pass
+
+
 class FakeThreading:
     """records Thread/Timer creation instead of starting OS threads (virtual timers: firing one is a harness event)"""
 
@@ -72,6 +76,12 @@ class FakeThreading:
 
             def cancel(self):
                 self.cancelled = True
+
+            def join(self, timeout=None):
+                # a timer whose callback is executing (e.g. waiting for a Linktest.rsp until T6) cannot be joined without
+                # waiting for it: the caller would block
+                if getattr(self, "running", False):
+                    raise TimerBusy("join on a timer whose callback is still running")
 
         self.Thread, self.Timer = Thread, Timer
 
